@@ -553,9 +553,12 @@ class FSM:
 
     def wait_for_crew(self):
         def done(*_args, **_kwds):
+            # the poller is gone whether or not it is still the active wait: a
+            # waiter cancelled by a stronger submission must not keep its handle
+            # or the next submission of this priority never starts a poller
+            self.crew_thread = None
             if self.waiting_on_crew():
                 self.update_trigger()
-                self.crew_thread = None
                 pass
             return
 
@@ -579,9 +582,12 @@ class FSM:
 
     def wait_for_doing(self):
         def done(*_args, **_kwds):
+            # the poller is gone whether or not it is still the active wait: a
+            # waiter cancelled by a stronger submission must not keep its handle
+            # or the next submission of this priority never starts a poller
+            self.doing_thread = None
             if self.waiting_on_doing():
                 self.update_trigger()
-                self.doing_thread = None
                 pass
             return
 
@@ -612,9 +618,12 @@ class FSM:
 
     def wait_for_todo(self):
         def done(*_args, **_kwds):
+            # the poller is gone whether or not it is still the active wait: a
+            # waiter cancelled by a stronger submission must not keep its handle
+            # or the next submission of this priority never starts a poller
+            self.todo_thread = None
             if self.waiting_on_todo():
                 self.update_trigger()
-                self.todo_thread = None
                 pass
             return
 
